@@ -157,13 +157,6 @@ theorem overlong_not_delivered {B : Nat} {m : Msg} {n : Nat} (body extra : Bytes
 
 /-! ### the connection after a failure -/
 
-/-- What `readLoop` does with the connection after one exchange: a call error ends the loop
-(`pc.close`), otherwise `mayReuse` with `bodyEOF` only if the body really ended in io.EOF. -/
-def connReusable (o : Outcome) (e : ReuseEnv) : Bool :=
-  match o with
-  | .reject => false
-  | .resp m b => mayReuse m { e with bodyEOF := e.bodyEOF && b.ok }
-
 theorem reject_not_reused (e : ReuseEnv) : connReusable .reject e = false := rfl
 
 /-- `pc.sawEOF`: once the conn's Read has returned io.EOF the connection never goes back to
